@@ -105,7 +105,9 @@ func checkC18(c *Ctx) {
 		for _, b := range backends {
 			c.c07Batch(b)
 		}
-	}, func(o *coreObl) (string, bool) { return "R18.3", o.Rule == "R07.4" && !strings.HasSuffix(o.Construct, ".Len") })
+	}, func(o *coreObl) (string, bool) {
+		return "R18.3", o.Rule == "R07.4" && !strings.HasSuffix(o.Construct, ".Len")
+	})
 	c.c18Evict()
 	c.c18Wiring()
 	c.c18DefaultBackend()
